@@ -30,8 +30,10 @@ def _has_quant(t):
     return False
 
 
-def build_query(ob, qf_only=False):
-    """SMT-LIB text of hyps ∧ ¬goal (cover: hyps only), with string-UF facts instantiated at ground terms."""
+def build_query(ob, qf_only=False, lite=False):
+    """SMT-LIB text of hyps ∧ ¬goal (cover: hyps only), with string-UF facts instantiated at ground terms.
+    lite: without those facts -- fewer hypotheses, so an `unsat` of the lite text is still a proof (its `sat` is not
+    a counterexample and is ignored)."""
     s = z3.Solver()
     terms = [h for h in ob.hyps if not (qf_only and _has_quant(h))]
     neg = None
@@ -39,8 +41,15 @@ def build_query(ob, qf_only=False):
         neg = z3.Not(ob.goal)
         terms.append(neg)
     from .contracts_rt import unfold_rec_apps
-    unf = unfold_rec_apps(terms)
-    facts = bm.instantiate_axioms(terms + unf)
+    unf = unfold_rec_apps(terms, reveals=getattr(ob, 'reveals', ()))
+    # revealed opaque (non-recursive) spec functions: the definition as a quantified fact, so that applications under
+    # binders can be opened too
+    from .contracts_rt import REC_DEFS
+    for rs in REC_DEFS.values():
+        if getattr(rs, "opaque", False) and rs.name in getattr(ob, "reveals", ()) and rs.def_params:
+            app = rs.func(*rs.def_params)
+            unf.append(z3.ForAll(list(rs.def_params), app == rs.def_body, patterns=[app]))
+    facts = [] if lite else bm.instantiate_axioms(terms + unf)
     for t in terms:
         s.add(t)
     for f in unf + facts:
@@ -68,7 +77,7 @@ def _run_z3_cli(path, timeout_s, opts=()):
 
 def _solve_z3(args):
     """quick z3, then cvc5, then longer z3 attempts with other instantiation strategies / seeds"""
-    text, timeout_ms, want_model = args
+    text, timeout_ms, want_model = args[:3]
     t0 = time.time()
     with tempfile.NamedTemporaryFile("w", suffix=".smt2", delete=False, dir=os.environ.get("VERIF_SCRATCH")) as f:
         f.write(text + "\n(check-sat)\n" if "(check-sat)" not in text else text)
@@ -86,6 +95,20 @@ def _solve_z3(args):
             if r in ("sat", "unsat"):
                 return r, None, time.time() - t0, "", "z3"
             reason = r
+        if os.environ.get("VERIF_KEEP_SMT"):     # debugging aid: keep the undecided query
+            import shutil, hashlib
+            kp = os.path.join(os.environ["VERIF_KEEP_SMT"], hashlib.md5(text.encode()).hexdigest()[:10] + ".smt2")
+            shutil.copy(path, kp)
+            reason = f"{reason} kept={kp}"
+        lite = args[3] if len(args) > 3 else None
+        if lite is not None:
+            with open(path, "w") as f2:
+                f2.write(lite + "\n(check-sat)\n" if "(check-sat)" not in lite else lite)
+            for opts, tmo in (((), timeout_ms / 2000.0), (("smt.mbqi=false",), timeout_ms / 2000.0)):
+                if _run_z3_cli(path, max(1.0, tmo), opts) == "unsat":
+                    return "unsat", None, time.time() - t0, "proved without the string-function facts", "z3(lite)"
+            if solve_cvc5(lite, min(8.0, timeout_ms / 1000.0))[0] == "unsat":
+                return "unsat", None, time.time() - t0, "proved without the string-function facts", "cvc5(lite)"
         return "unknown", None, time.time() - t0, "timeout" if reason == "unknown" else reason, "z3"
     finally:
         try:
@@ -143,7 +166,19 @@ def discharge(obligations, timeout_ms=10000, procs=None, use_cvc5=True, cvc5_tim
             texts.append(None)
             ob._build_error = f"{type(e).__name__}: {e}"
     # the un-carved twin of a known finding only has to stay unproved: a short budget is enough
-    jobs = [(t, 3000 if ob.name.endswith("@known") else timeout_ms, True) for ob, t in zip(obligations, texts) if t is not None]
+    jobs = []
+    for ob, t in zip(obligations, texts):
+        if t is None:
+            continue
+        lite = None
+        if not ob.expect_sat and not ob.name.endswith("@known"):
+            try:
+                lite = build_query(ob, lite=True)
+            except Exception:
+                lite = None
+            if lite == t:
+                lite = None
+        jobs.append((t, 3000 if ob.name.endswith("@known") else timeout_ms, True, lite))
     if jobs:
         from concurrent.futures import ThreadPoolExecutor
         with ThreadPoolExecutor(max_workers=procs) as pool:      # threads only wait for solver processes
